@@ -2,6 +2,7 @@ package main
 
 import (
 	"fmt"
+	"math"
 
 	sio "github.com/pip-services3-gox/pip-services3-expressions-gox/io"
 	"github.com/pip-services3-gox/pip-services3-expressions-gox/tokenizers"
@@ -73,6 +74,7 @@ type c17target interface {
 type c17map struct {
 	m    *utilities.CharReferenceMap
 	a, b *c17ref
+	a2   *c17ref // another object with the same contents as a
 }
 
 func (t *c17map) ref(r string) any {
@@ -81,6 +83,8 @@ func (t *c17map) ref(r string) any {
 		return t.a
 	case "B":
 		return t.b
+	case "A2":
+		return t.a2
 	}
 	return nil
 }
@@ -95,8 +99,53 @@ func (t *c17map) look(ch rune) string {
 		return "A"
 	case v == any(t.b):
 		return "B"
+	case v == any(t.a2):
+		return "A2"
 	}
 	return fmt.Sprintf("other:%T", v)
+}
+
+// a tokenizer whose configured states are marker states: which state a character is handed to is observed by reading it
+type markState struct{ id int }
+
+func (s *markState) NextToken(scanner sio.IScanner, tokenizer tokenizers.ITokenizer) *tokenizers.Token {
+	scanner.Read()
+	return tokenizers.NewToken(100+s.id, "m", 0, 0)
+}
+
+type c17read struct {
+	t    *generic.GenericTokenizer
+	a, b *markState
+}
+
+func (t *c17read) add(lo, hi rune, ref string) {
+	// the character that starts the last token read before the change is one of the new range's ends
+	t.look(hi)
+	t.look(lo)
+	switch ref {
+	case "A":
+		t.t.SetCharacterState(lo, hi, t.a)
+	case "B":
+		t.t.SetCharacterState(lo, hi, t.b)
+	default:
+		t.t.SetCharacterState(lo, hi, nil)
+	}
+}
+func (t *c17read) clear() { t.t.ClearCharacterStates() }
+func (t *c17read) look(ch rune) string {
+	toks := t.t.TokenizeBuffer(string([]rune{ch}))
+	if len(toks) == 0 {
+		return "none"
+	}
+	switch toks[0].Type() {
+	case 100:
+		return "A"
+	case 101:
+		return "B"
+	case tokenizers.Unknown:
+		return "nil"
+	}
+	return fmt.Sprint("type:", toks[0].Type())
 }
 
 type c17tok struct {
@@ -174,7 +223,11 @@ func execC17(seg []Ev) []Ev {
 			e["target"] = in["target"]
 			switch toStr(in["target"]) {
 			case "map":
-				t = &c17map{m: utilities.NewCharReferenceMap(), a: &c17ref{"A"}, b: &c17ref{"B"}}
+				t = &c17map{m: utilities.NewCharReferenceMap(), a: &c17ref{"A"}, b: &c17ref{"B"}, a2: &c17ref{"A"}}
+			case "tokread":
+				g := generic.NewGenericTokenizer()
+				g.ClearCharacterStates()
+				t = &c17read{t: g, a: &markState{0}, b: &markState{1}}
 			case "tokenizer":
 				g := generic.NewGenericTokenizer()
 				g.ClearCharacterStates()
@@ -210,7 +263,16 @@ func execC17(seg []Ev) []Ev {
 			t.clear()
 		}
 		look := make([][]any, 0, len(probes))
+		first := map[int]string{}
+		if lo, ok := in["lo"]; ok {
+			// the ends of the range just registered are looked up first
+			first[toInt(lo)] = t.look(rune(toInt(lo)))
+		}
 		for _, p := range probes {
+			if v, ok := first[p]; ok {
+				look = append(look, []any{p, v})
+				continue
+			}
 			look = append(look, []any{p, t.look(rune(p))})
 		}
 		e["obs"] = Ev{"look": look}
@@ -247,14 +309,35 @@ func cloneEv(e Ev) Ev {
 
 func genC17(g *Gen) {
 	ops := c17ops()
-	targets := []string{"map", "tokenizer", "word", "ws", "ws0", "word0"}
+	targets := []string{"map", "tokenizer", "word", "ws", "ws0", "word0", "tokread"}
 	// exhaustive histories of length <= 2 on the map and the tokenizer, length 1 and a sample of 2 on the classes
 	for _, tg := range targets {
 		for _, o1 := range ops {
 			g.Run("exhaustive-1:"+tg, []Ev{{"op": "new", "target": tg}, cloneEv(o1)})
 		}
 	}
-	for _, tg := range targets[:2] {
+	// two reference objects with equal contents; ranges that lie above U+FFFE
+	for _, lo := range c17ends {
+		for _, hi := range c17ends {
+			if lo > hi {
+				continue
+			}
+			for _, order := range [][]string{{"A", "A2"}, {"A2", "A"}, {"B", "A", "A2"}, {"A", "A2", "nil", "A2", "A"}} {
+				seg := []Ev{{"op": "new", "target": "map"}}
+				for _, r := range order {
+					seg = append(seg, Ev{"op": "add", "lo": lo, "hi": hi, "ref": r})
+				}
+				g.Run("equal but distinct reference objects", seg)
+			}
+		}
+	}
+	for _, tg := range []string{"map", "tokenizer", "tokread"} {
+		for _, rg := range [][2]int{{0x10000, 0x10FFFF}, {0x10000, math.MaxInt32}, {0xFFFF, 0x10000}, {0x10041, 0x10041}, {0x1F600, 0x1F600}} {
+			g.Run("ranges above U+FFFE", []Ev{{"op": "new", "target": tg}, {"op": "add", "lo": rg[0], "hi": rg[1], "ref": "A"}, {"op": "add", "lo": 'a', "hi": 0x2000, "ref": "B"},
+				{"op": "add", "lo": rg[0], "hi": rg[0], "ref": "nil"}, {"op": "add", "lo": rg[0], "hi": rg[1], "ref": "B"}, {"op": "clear"}, {"op": "add", "lo": rg[0], "hi": rg[1], "ref": "A"}})
+		}
+	}
+	for _, tg := range []string{"map", "tokenizer", "tokread"} {
 		for _, o1 := range ops {
 			for _, o2 := range ops {
 				g.Run("exhaustive-2:"+tg, []Ev{{"op": "new", "target": tg}, cloneEv(o1), cloneEv(o2)})
